@@ -1,6 +1,7 @@
 import HidVerif.Hid.TypecheckStmt
 import HidVerif.Proofs.Escape
 import HidVerif.Proofs.ParseFuel
+import HidVerif.Proofs.TypeSoundProg
 /-!
 # C10 — the compiler is total
 
@@ -47,5 +48,34 @@ theorem parse_total (src : List HidVerif.Hid.Lex.Line) :
     | lexer c => exact Or.inr (Or.inl ⟨c, rfl⟩)
     | parser c => exact Or.inr (Or.inr ⟨c, rfl⟩)
     | fuel => exact absurd h hf
+
+/-! ### the assertions inside the typechecker cannot fire
+
+`hidc/ast/expressions.py` asserts, when the type of a cast node is asked for, that the operand has the source type
+of the cast (`TypeCast.type`), and that the operand of `Volatile` is a non-const array; `statements.py` asserts that a
+declaration whose coerced initialiser is `Volatile` has a const array type.  In the typed tree these are the `.cast`
+clause of `wtE` (`castSrcOK`) — which `C07.accepted_programs_are_well_typed` proves of every node of every accepted
+program — and the following corollary. The typechecker model is a total function (no `partial def` is left in
+`tcProgram`'s call graph — otherwise nothing could be proved about it), so it returns a tree or an error for every
+parse tree. -/
+open HidVerif.Hid.TC in
+/-- a declaration whose initialiser was coerced to a volatile view has a const array type (`assert self.var.type.const`) -/
+theorem volatile_initialiser_means_const_array (fs : List FuncSig) (init e : TE) (ty : HidVerif.Hid.Ty)
+    (hw : wtE fs init = true) (hty : HidVerif.Hid.Parse.tyOK ty = true) (h : coerce init ty = .ok (.cast .vol e)) :
+    ∃ el, ty = .arr el true := by
+  have h2 := (coerce_ok hw (tyOK_tgtOK hty) h).2
+  simp only [typeOf] at h2
+  cases ht : typeOf e with
+  | arr el c => rw [ht] at h2; exact ⟨el, h2.symm⟩
+  | _ =>
+    have h1 := (coerce_ok hw (tyOK_tgtOK hty) h).1
+    simp [wtE, castSrcOK, ht] at h1
+
+open HidVerif.Hid.TC in
+/-- in an accepted tree the operand of every cast node has the source type of the cast (`assert expr_type ==
+self.expr.type`, `assert not self.expr.type.const`): this is how `wtE` reads on a cast node -/
+theorem cast_node_operand_type (fs : List FuncSig) (k : HidVerif.Hid.CastK) (e : TE) (h : wtE fs (.cast k e) = true) :
+    castSrcOK k (typeOf e) = true := by
+  simp only [wtE, Bool.and_eq_true] at h; exact h.2
 
 end HidVerif.Props.C10
